@@ -30,7 +30,7 @@ for p in props:
     na.append({"property_id": pid, "reason": NOT_APPLICABLE.get(pid, "no check registered yet (work in progress)")})
 m = {
     "version": 1,
-    "setup_cmd": "cd /verif/engine && GOFLAGS=-mod=mod GOPROXY=off GOSUMDB=off GOTOOLCHAIN=local GOCACHE=/verif/.cache/gocache go build -o /verif/bin/gosym ./cmd/gosym",
+    "setup_cmd": "cd /verif/engine && GOFLAGS=-mod=mod GOPROXY=off GOSUMDB=off GOTOOLCHAIN=local go build -o /verif/bin/gosym ./cmd/gosym",
     "hooks": {"guard": "verif", "enable": "no hook commits in /repo: harness sources are injected with go/packages and `go build -overlay` overlays (DESIGN.md section 2.2)",
               "baseline_off_cmd": "cd /repo && GOFLAGS=-mod=mod GOPROXY=off go test -vet=off -count=1 ./...", "source_commits": [], "add_only": True},
     "engines": [{"name": "gosym", "path": "/verif/engine", "serves_properties": [c["property_id"] for c in checks],
